@@ -180,6 +180,7 @@ struct Edits {
 		uint32_t W = uint32_t(s.r.width()), H = s.r.height;
 		std::set<std::pair<uint32_t, uint32_t>> pos = { { 0, 0 }, { W - 1, 0 }, { 0, H - 1 }, { W - 1, H - 1 }, { 31, 0 } };
 		if (W > 32) pos.insert({ 32, 0 });
+		if (H > 2) { pos.insert({ 0, H / 2 }); pos.insert({ W - 1, H / 2 }); pos.insert({ 5, H - 2 }); }   // rows in the middle (heights need not be powers of two)
 		for (auto& p : pos) { for (uint32_t c : { 0u, 15u, 16u, 31u }) v.push_back({ eCell, c, p.first, p.second }); for (uint32_t b : { 0u, 1u }) v.push_back({ eLava, b, p.first, p.second }); }
 		for (uint32_t t : { 0x1010u, 0x1011u, 0x100Fu, 0xFFFFFFFFu }) v.push_back({ eTag, t });
 		v.push_back({ eTrim });
@@ -246,6 +247,7 @@ void runCase(std::size_t i, Ctx& ctx)
 	if (k & 2) cfg[6] = 5;                 // sources with empty entries
 	if (k == 4) cfg[6] = 7;                // an empty source in front of several used ones
 	if (k == 5) cfg[6] = 8;                // empty sources in between and at the end
+	if (k == 7) { cfg[1] = 3; cfg[0] = 4; } // 64 x 3: a height that is not a power of two
 	ref::RMap seed = mapc::makeMap(cfg);
 	Edits h{ ctx, seed, "seed " + std::to_string(k) + " (" + mapc::describe(cfg) + ")" };
 	auto r = mc::bfs(h, ctx, 5000000, ctx.thorough ? 4 : 3, "edits" + std::to_string(k), true);   // all edit histories up to the depth bound
@@ -261,7 +263,7 @@ int main(int argc, char** argv)
 	mc::CheckDef def;
 	def.id = "C06";
 	def.init = enumerate;
-	def.ncases = [](Ctx&) { return nChunks() + 7; };
+	def.ncases = [](Ctx&) { return nChunks() + 8; };
 	def.run = runCase;
 	def.caseTimeoutS = 900;
 	return mc::Main(argc, argv, def);
